@@ -20,7 +20,11 @@ Address texts are parsed by the ipaddress library (uninterpreted (version, value
 from pyvc.api import *
 from props.prelude import *
 
-CLAIM = "proof"
+CLAIM = "other"
+EXPLANATION = ("T1 proves the guard against the statement's denotes-own-socket predicate for all destination texts, ports, listen addresses and transports, but over a bounded "
+               "structure (the double loop over server instances x listen addresses is unrolled for <= 2 instances with <= 2 addresses each, no loop invariant); two recorded findings "
+               "(spellings other than the four compared literals; listeners of modes that serve both transports) are excluded by their class predicates and re-witnessed natively on "
+               "every run. Larger listener configurations and the statement's spelling list are enumerated on the real addon (T2)")
 P = "mitmproxy.addons.proxyserver:Proxyserver"
 MS = "mitmproxy.proxy.mode_specs:"
 TWO24, TWO32 = 2 ** 24, 2 ** 32
